@@ -1,29 +1,55 @@
 #!/usr/bin/env python3
-"""Apply every seeded change under /verif/seeded to /repo (git apply), run the quick check of its property, undo the change
-(git checkout), and record whether the check reported a violation.  Usage: run_seeded.py [name-prefix ...]
-Never leaves /repo modified; refuses to start on a dirty tree."""
-import json, os, subprocess, sys, glob
+"""Run the quick check of every seeded change under /verif/seeded against a scratch worktree of /repo's HEAD with the change
+applied (LPV_REPO / LPV_CACHE / LPV_EVIDENCE point the check at scratch directories), and record whether the check reported a
+violation.  /repo itself and /verif/evidence are never touched.  Usage: run_seeded.py [-jN] [name-prefix ...]"""
+import json, os, subprocess, sys, glob, shutil, tempfile
+from concurrent.futures import ThreadPoolExecutor
 ROOT = os.path.dirname(os.path.dirname(os.path.abspath(__file__)))
 REPO = os.environ.get("LPV_REPO", "/repo")
 def sh(*a, **k): return subprocess.run(a, capture_output=True, text=True, **k)
-dirty = [l for l in sh("git", "-C", REPO, "status", "--porcelain").stdout.splitlines() if not l.startswith("??")]
-if dirty: sys.exit("repo has local changes: " + str(dirty))
+args = sys.argv[1:]
+jobs = 1
+for a in list(args):
+    if a.startswith("-j"): jobs = int(a[2:] or 1); args.remove(a)
 names = sorted(os.path.basename(d) for d in glob.glob(os.path.join(ROOT, "seeded", "*")) if os.path.isdir(d))
-if len(sys.argv) > 1: names = [n for n in names if any(n.startswith(p) for p in sys.argv[1:])]
+if args: names = [n for n in names if any(n.startswith(p) for p in args)]
+base = tempfile.mkdtemp(prefix="lpv_seeded_")
+slots = []
+for j in range(jobs):
+    wt = os.path.join(base, "wt%d" % j)
+    r = sh("git", "-C", REPO, "worktree", "add", "-f", "--detach", wt, "HEAD")
+    if r.returncode != 0: sys.exit("cannot create worktree: " + r.stderr)
+    slots.append(wt)
+import queue
+free = queue.Queue()
+for w in slots: free.put(w)
 res = {}
-for n in names:
+def one(n):
     d = os.path.join(ROOT, "seeded", n)
     meta = json.load(open(os.path.join(d, "meta.json")))
     prop = meta["property"]
-    if sh("git", "-C", REPO, "apply", os.path.join(d, "patch.diff")).returncode != 0:
-        res[n] = "patch does not apply"; print(n, res[n], flush=True); continue
+    wt = free.get()
     try:
-        r = sh(sys.executable, os.path.join(ROOT, "tools", "check.py"), prop, "--seed", os.environ.get("VERIF_SEED", "1"))
+        if sh("git", "-C", wt, "apply", os.path.join(d, "patch.diff")).returncode != 0:
+            res[n] = "patch does not apply"; print(n, res[n], flush=True); return
+        env = dict(os.environ, LPV_REPO=wt, LPV_CACHE=wt + "_cache", LPV_EVIDENCE=wt + "_evid")
+        try:
+            r = sh(sys.executable, os.path.join(ROOT, "tools", "check.py"), prop, "--seed", os.environ.get("VERIF_SEED", "1"), env=env)
+        finally:
+            sh("git", "-C", wt, "checkout", "--", ".")
+        viol = [l for l in r.stdout.splitlines() if l.startswith("VIOLATION")]
+        res[n] = ("DETECTED rc=%d %s" % (r.returncode, viol[0][:110])) if viol and r.returncode == 1 else "MISSED rc=%d" % r.returncode
+        print(n, res[n], flush=True)
     finally:
-        sh("git", "-C", REPO, "checkout", "--", ".")
-    viol = [l for l in r.stdout.splitlines() if l.startswith("VIOLATION")]
-    res[n] = ("DETECTED rc=%d %s" % (r.returncode, viol[0][:110])) if viol and r.returncode == 1 else "MISSED rc=%d" % r.returncode
-    print(n, res[n], flush=True)
-json.dump(res, open("/tmp/seeded_results.json", "w"), indent=1)
+        free.put(wt)
+try:
+    with ThreadPoolExecutor(max_workers=jobs) as ex:
+        list(ex.map(one, names))
+finally:
+    for w in slots:
+        sh("git", "-C", REPO, "worktree", "remove", "--force", w)
+    sh("git", "-C", REPO, "worktree", "prune")
+    shutil.rmtree(base, ignore_errors=True)
+json.dump(res, open(os.path.join(tempfile.gettempdir(), "seeded_results.json"), "w"), indent=1)
 missed = [n for n, v in res.items() if not v.startswith("DETECTED")]
 print("missed:", missed)
